@@ -17,8 +17,8 @@ import (
 type CertCase struct {
 	F     [][]int  `json:"f"`
 	N     int      `json:"n"`
-	Lines []string `json:"lines"`           // certificate as text lines
-	Entry string   `json:"entry"`           // reader | chan | subset
+	Lines []string `json:"lines"`             // certificate as text lines
+	Entry string   `json:"entry"`             // reader | chan | subset
 	Genu  bool     `json:"genuine,omitempty"` // derived from a genuine solver trace
 }
 
